@@ -1,7 +1,7 @@
 (* C03 — property theorems only. Each is closed by [exact] of a lemma proved in C03/Proofs*.v. *)
 From Coq Require Import List ZArith Bool String Lia.
 Import ListNotations.
-From AgileV Require Import C03.Model C03.ModelCnn C03.ModelNet C03.ModelMulti C03.Proofs C03.ProofsS C03.ProofsCnn C03.ProofsCnn2 C03.ProofsCnn3 C03.ProofsNet C03.ProofsMulti C03.ProofsShape.
+From AgileV Require Import C03.Model C03.ModelCnn C03.ModelNet C03.ModelMulti C03.Proofs C03.ProofsS C03.ProofsCnn C03.ProofsCnn2 C03.ProofsCnn3 C03.ProofsChains C03.ProofsNet C03.ProofsMulti C03.ProofsShape.
 Local Open Scope Z_scope.
 
 (* ======================= EvolvableMLP ======================= *)
@@ -33,6 +33,11 @@ Theorem valid_inv_mlp : forall c h m r1 r2,
   mlp_valid (arch_of (mlp_step c h m r1 r2)).
 Proof. exact mlp_valid_inv. Qed.
 Print Assumptions valid_inv_mlp.
+
+Theorem valid_chain_mlp : forall c, 1 <= m_min_layers c -> 0 <= m_min_nodes c -> forall ops h,
+  Forall mlp_op_ok ops -> mlp_valid h -> mlp_valid (mlp_run c h ops).
+Proof. exact mlp_valid_chain. Qed.
+Print Assumptions valid_chain_mlp.
 
 (* After every chain the torch module is the one built for the current descriptor, and the constructor
    description (init_dict) is accepted by the constructor and rebuilds exactly that module
@@ -149,6 +154,12 @@ Theorem valid_inv_scalar : forall p c a m r,
   s_valid a -> s_valid (arch_of (s_step p c a m r)).
 Proof. exact s_valid_inv. Qed.
 Print Assumptions valid_inv_scalar.
+
+Theorem valid_chain_scalar : forall p c, choices_ok p -> 1 <= s_min_layers c ->
+  (if sp_rem_strict p then 0 <= s_min_width c else 1 <= s_min_width c) ->
+  forall ops a, Forall s_op_ok ops -> s_valid a -> s_valid (s_run p c a ops).
+Proof. exact s_valid_chain. Qed.
+Print Assumptions valid_chain_scalar.
 
 Theorem add_layer_effective_scalar : forall p c a r,
   s_layers a < s_max_layers c ->
@@ -311,6 +322,11 @@ Theorem valid_inv_cnn_with_candidate_repair : forall st c a m r1 r2,
   cnn_ok st a -> cnn_ok st (arch_of (cnn_step_fixed st c a m r1 r2)).
 Proof. exact cnn_valid_inv_fixed. Qed.
 Print Assumptions valid_inv_cnn_with_candidate_repair.
+
+Theorem valid_chain_cnn_with_candidate_repair : forall st c, 1 <= c_min_layers c -> 1 <= c_min_ch c -> forall ops a,
+  Forall (fun o : cnn_op => cnn_meth_ok (fst (fst o))) ops -> cnn_ok st a -> cnn_ok st (cnn_run_fixed st c a ops).
+Proof. exact cnn_valid_chain_fixed. Qed.
+Print Assumptions valid_chain_cnn_with_candidate_repair.
 
 Theorem add_layer_effective_cnn : forall st c a r1 r2,
   let mk := last (max_kernels (cs_h st) (cs_w st) (kernels a) (strides a)) 1 in
